@@ -622,7 +622,10 @@ def build_static_object(o: dict):
     if k == "box":
         return fdtdx.UniformMaterialObject(name=o["name"], material=build_material(o.get("material")), placement_order=int(o.get("order", 0)))
     if k == "sphere":
-        return fdtdx.Sphere(name=o["name"], materials={"m": build_material(o.get("material"))}, material_name="m", radius=o["radius"], placement_order=int(o.get("order", 0)))
+        kw = {}
+        if o.get("radii"):  # optional per-axis radii (ellipsoid); the bounding box is derived from them
+            kw = {"radius_x": float(o["radii"][0]), "radius_y": float(o["radii"][1]), "radius_z": float(o["radii"][2])}
+        return fdtdx.Sphere(name=o["name"], materials={"m": build_material(o.get("material"))}, material_name="m", radius=o["radius"], placement_order=int(o.get("order", 0)), **kw)
     if k == "cylinder":
         return fdtdx.Cylinder(name=o["name"], materials={"m": build_material(o.get("material"))}, material_name="m", radius=o["radius"], axis=o["axis"], placement_order=int(o.get("order", 0)))
     raise env.HarnessError(f"unknown static object {k}")
